@@ -62,7 +62,7 @@ func (l *memLayer) Accept() (net.Conn, error) {
 		return nil, errors.New("listener closed")
 	}
 }
-func (l *memLayer) Close() error { l.once.Do(func() { close(l.closed) }); return nil }
+func (l *memLayer) Close() error   { l.once.Do(func() { close(l.closed) }); return nil }
 func (l *memLayer) Addr() net.Addr { return memAddr(l.addr) }
 func (l *memLayer) Dial(address raft.ServerAddress, timeout time.Duration) (net.Conn, error) {
 	l.n.mu.Lock()
